@@ -226,3 +226,72 @@ Definition c_scale (k : Q) (a : contrast) : contrast :=
                               fff_mahalanobis: dpotrf  S = L L^t;  dtrsv  y = L^-1 d;  ssd(y) = sum y_i^2
    The ring-generic definitions and the theorem that the two agree are in Quad.v
    (fmri_F, labs_F); the Q instances used by the correspondence are in Exec.v. *)
+
+(* ================================================================== *)
+(* The cache of a Contrast object as a small state machine (identical logic in
+   fmri.glm.Contrast and labs.glm.contrast):
+     stat(b):     self.baseline = b; self.stat_ = <computed at b>           (p_value_ is NOT invalidated)
+     p_value(b):  if stat_ is None or baseline != b: stat_ = stat(b)
+                  p_value_ = tail(stat_)
+     z_score(b):  if p_value_ is None or baseline != b: p_value_ = p_value(b)
+                  z = isf(clip(p_value_)), masked with isnan(stat_)
+     __rmul__/__add__: a NEW object, empty cache, baseline 0.
+   Values are pure functions of (contents, baseline), so the model tracks only the
+   TAG (contents, baseline) each cached / returned array was computed from.
+   `fixed = true` is the repaired machine (stat() drops the cached p-value).     *)
+Inductive cexp := CBase (i : nat) | CMul (k : Q) (c : cexp) | CAdd (a b : cexp).
+Definition tag := (cexp * Q)%type.
+Record cstate := mkS { s_c : cexp; s_bl : Q; s_st : option tag; s_pv : option tag }.
+Inductive cop := OStat (b : Q) | OPval (b : Q) | OZ (b : Q) | OMul (k : Q) | OAdd (other : cexp).
+Inductive obs := ObStat (t : tag) | ObP (t : tag) | ObZ (pt mt : tag) | ObNew.
+
+Definition init_state (c : cexp) : cstate := mkS c 0 None None.
+
+Definition do_stat (fixed : bool) (b : Q) (s : cstate) : cstate :=
+  mkS (s_c s) b (Some (s_c s, b)) (if fixed then None else s_pv s).
+Definition need (cache : option tag) (bl b : Q) : bool :=
+  match cache with None => true | Some _ => negb (Qeq_bool bl b) end.
+Definition tag_or (o : option tag) (d : tag) : tag := match o with Some t => t | None => d end.
+Definition do_p (fixed : bool) (b : Q) (s : cstate) : cstate * tag :=
+  let s1 := if need (s_st s) (s_bl s) b then do_stat fixed b s else s in
+  let t := tag_or (s_st s1) (s_c s1, b) in
+  (mkS (s_c s1) (s_bl s1) (s_st s1) (Some t), t).
+Definition do_z (fixed : bool) (b : Q) (s : cstate) : cstate * obs :=
+  let s1 := if need (s_pv s) (s_bl s) b then fst (do_p fixed b s) else s in
+  (s1, ObZ (tag_or (s_pv s1) (s_c s1, b)) (tag_or (s_st s1) (s_c s1, b))).
+
+Definition step (fixed : bool) (s : cstate) (o : cop) : cstate * obs :=
+  match o with
+  | OStat b => (do_stat fixed b s, ObStat (s_c s, b))
+  | OPval b => let r := do_p fixed b s in (fst r, ObP (snd r))
+  | OZ b => do_z fixed b s
+  | OMul k => (init_state (CMul k (s_c s)), ObNew)
+  | OAdd other => (init_state (CAdd (s_c s) other), ObNew)
+  end.
+
+Fixpoint run (fixed : bool) (s : cstate) (ops : list cop) : list obs :=
+  match ops with
+  | [] => []
+  | o :: r => let sr := step fixed s o in snd sr :: run fixed (fst sr) r
+  end.
+
+(* what a correct (cache-free) object reports: everything computed from the current contents at the requested baseline *)
+Fixpoint run_pure (c : cexp) (ops : list cop) : list obs :=
+  match ops with
+  | [] => []
+  | OStat b :: r => ObStat (c, b) :: run_pure c r
+  | OPval b :: r => ObP (c, b) :: run_pure c r
+  | OZ b :: r => ObZ (c, b) (c, b) :: run_pure c r
+  | OMul k :: r => ObNew :: run_pure (CMul k c) r
+  | OAdd o :: r => ObNew :: run_pure (CAdd c o) r
+  end.
+
+Definition tag_equiv (a b : tag) : Prop := fst a = fst b /\ snd a == snd b.
+Definition obs_equiv (a b : obs) : Prop :=
+  match a, b with
+  | ObStat t, ObStat u => tag_equiv t u
+  | ObP t, ObP u => tag_equiv t u
+  | ObZ p m, ObZ p' m' => tag_equiv p p' /\ tag_equiv m m'
+  | ObNew, ObNew => True
+  | _, _ => False
+  end.
